@@ -74,7 +74,7 @@ def strategy(tp):
         # how the password is supplied: [kind, variant]
         "auth": st.one_of(st.just(["none", ""]), st.just(["basic", "right"]), st.just(["basic", "right"]),
                           st.tuples(st.sampled_from(["basic", "basic", "basic", "basic", "basic", "basic-nouser", "basic-extra-colon", "basic-lower-scheme", "url-at", "url-query"]),
-                                    st.sampled_from(["right", "right", "right", "right", "wrong", "right+x", "right-1", "upper", "empty", "disable", "none", "other"])).map(list)),
+                                    st.sampled_from(["right", "right", "right", "wrong", "right+x", "right+x", "right-1", "right-1", "right-half", "right-first", "upper", "empty", "disable", "none", "other"])).map(list)),
     })
     return st.fixed_dictionaries({
         "passwd": st.lists(pwline, min_size=0, max_size=3),
@@ -165,7 +165,7 @@ def build(sc, rq, port):
         name = action + "/"
     right = the_password(sc, action) or the_password(sc, action, False) or "secret"
     kind, var = rq["auth"]
-    pw = {"right": right, "wrong": "wrongpw", "right+x": right + "x", "right-1": right[:-1], "upper": right.upper(), "empty": "",
+    pw = {"right": right, "wrong": "wrongpw", "right+x": right + "x", "right-1": right[:-1], "right-half": right[:max(1, len(right) // 2)], "right-first": right[:1], "upper": right.upper(), "empty": "",
           "disable": "disable", "none": "none", "other": "s3cr3t" if right != "s3cr3t" else "secret"}.get(var, "")
     supplied = set()
     headers = ""
